@@ -7,6 +7,7 @@ import Bandit.Gen.Constants
 import Bandit.Gen.Defaults
 import Bandit.Proofs.Total2
 import Bandit.Proofs.Loc
+import Bandit.Fast
 /-!
 # Driver core: JSON helpers and the `scan` family of ops.
 
@@ -127,7 +128,8 @@ def opScan (j : Json) : Except String Json := do
       | some s => fun i => s.contains i
       | none => fun _ => true
   let checks := testSet (effectiveCfg over) fname Gen.blTables keep
-  let es := scanFile checks { root := tree, nosec := nm, lines := lines }
+  -- `scanFileFast = scanFile` (Bandit/Fast.lean, Props.C06.driver_scan_is_model): positions are erased once per file, not once per check per node
+  let es := scanFileFast checks { root := tree, nosec := nm, lines := lines }
   return Json.mkObj [
     ("findings", Json.arr ((findingsOf es).map findingJson).toArray),
     ("nosec", Json.num (nosecCount es)),
